@@ -89,7 +89,7 @@ def tlc(ctx, module, cfg, workers=None, env=None, timeout=900, extra=(), deque=F
     r.generated, r.distinct = (int(m[-1][0]), int(m[-1][1])) if m else (0, 0)
     m = re.search(r"depth of the complete state graph search is (\d+)", p.stdout)
     r.depth = int(m.group(1)) if m else 0
-    m = re.search(r"Invariant (\S+) is violated", p.stdout)
+    m = re.search(r"Invariant (\S+) is violated", p.stdout) or re.search(r"The invariant of (\S+) is equal to FALSE", p.stdout)
     r.invariant = m.group(1) if m else None
     r.temporal = bool(re.search(r"Temporal propert(y|ies) .*(was|were) violated", p.stdout))
     r.deadlock = "Deadlock reached" in p.stdout
